@@ -151,6 +151,7 @@ fn main() {
                 t.reset(sys.reset_event());
                 for _ in 0..len {
                     time_passes(&sys.e, &mut r, 3000);
+                    time_passes_long(&sys.e, &mut r);
                     let kinds: &[&str] = if fl == "counter" { &["increment", "increment", "ereset", "pause", "unpause"] } else { &["upgrade", "migrate", "migrate"] };
                     let kind = *pick(&mut r, kinds);
                     let caller = if r.gen_bool(0.8) { "a" } else { "b" };
